@@ -76,8 +76,32 @@ RECURSIVE SerVTree(_)
 SerVTree(j) == IF "Leaf" \in DOMAIN j THEN <<"leaf", j.Leaf>>
                ELSE <<"node", SerVTree(j.Node.left), SerVTree(j.Node.right)>>
 
+(* ---- command-line tools (C19) ---- *)
+CliWmcOK(e) ==
+  LET used  == NamesIn(e.in)
+      wn    == {e.weights[i][1] : i \in 1 .. Len(e.weights)}
+      extra == wn \ used
+      k     == Cardinality(used)
+      n     == k + Cardinality(extra)
+      \* formula variables get their lexicographic rank; weight-only variables come after them (their mutual order is irrelevant to a count)
+      IdxOf(name) == IF name \in used THEN Rank(name, used) ELSE k + Cardinality({x \in extra : PosIn(x) < PosIn(name)})
+      WOf(name) == IF \E i \in 1 .. Len(e.weights) : e.weights[i][1] = name
+                   THEN LET i == CHOOSE i \in 1 .. Len(e.weights) : e.weights[i][1] = name IN <<<<e.weights[i][2]>>, <<e.weights[i][3]>>>>
+                   ELSE <<<<0>>, <<0>>>>                      \* the tool's documented default for unweighted variables
+      w == [i \in 1 .. n |-> WOf(CHOOSE x \in used \cup extra : IdxOf(x) = i - 1)]
+      f == EvalNamed(e.in, used)
+  IN /\ ListedOrder
+     /\ (Len(e.order) = 0 \/ ToSet(e.order) = used \cup extra)                         \* domain: a configured order lists every variable
+     /\ e.mc = Cardinality(Models(f, n))                                                \* exact number of models over all variables
+     /\ e.wmc = Comps(WMC("real", 0, f, w, WX(1, n), n), n)[1]                          \* exact weighted sum (weights are k/8)
+CliF2bOK(e) == ListedOrder /\ Len(e.json.roots) = 1 /\ SerBddDen(e.json.nodes, e.json.roots[1]) = EvalNamed(e.in, NamesIn(e.in))
+CliC2bOK(e) == Len(e.json.roots) = 1 /\ SerBddDen(e.json.nodes, e.json.roots[1]) = EvalCnf(e.in)
+
 EventOK(e) ==
-  CASE e.ev = "dimacs_cnf" -> SetsOf(e.out) = SetsOf(e.in) /\ e.out_nv = MaxVar(e.in) + 1
+  CASE e.ev = "cli_wmc" -> CliWmcOK(e)
+    [] e.ev = "cli_f2b" -> CliF2bOK(e)
+    [] e.ev = "cli_c2b" -> CliC2bOK(e)
+    [] e.ev = "dimacs_cnf" -> SetsOf(e.out) = SetsOf(e.in) /\ e.out_nv = MaxVar(e.in) + 1
     [] e.ev = "dimacs_expr" -> EvalExpr(e.out) = EvalCnf(ShiftCnf(e.in))
     [] e.ev = "to_dimacs" -> SetsOf(e.out) = SetsOf(e.in)
     [] e.ev = "sexpr" -> ListedOrder /\ EvalExpr(e.out) = EvalNamed(e.in, NamesIn(e.in))
